@@ -1,0 +1,64 @@
+// Copyright © 2023 Ory Corp
+// SPDX-License-Identifier: Apache-2.0
+
+//go:build verif
+
+// This file is only compiled with the build tag "verif". It exports thin
+// constructors around unexported identifiers of this package so that an
+// external deterministic simulator can drive the real namespace watchers and
+// the real event loop (startEventHandler) with a simulated source of
+// watcherx events instead of fsnotify. It adds no behaviour of its own.
+
+package config
+
+import (
+	"context"
+	"io"
+
+	"github.com/ory/x/logrusx"
+	"github.com/ory/x/watcherx"
+
+	"github.com/ory/keto/internal/namespace"
+)
+
+// VerifNewOPLWatcher returns the real OPL config watcher without attaching it
+// to a file system watcher (no call to watchTarget).
+func VerifNewOPLWatcher(c *Config, target string) namespace.Manager {
+	return &oplConfigWatcher{
+		logger:                 c.l,
+		target:                 target,
+		files:                  configFiles{byPath: make(map[string]io.Reader)},
+		memoryNamespaceManager: *NewMemoryNamespaceManager(),
+	}
+}
+
+// VerifNewLegacyWatcher returns the real legacy namespace file watcher without
+// attaching it to a file system watcher.
+func VerifNewLegacyWatcher(l *logrusx.Logger, target string) namespace.Manager {
+	return &NamespaceWatcher{
+		logger:     l,
+		target:     target,
+		namespaces: make(map[string]*NamespaceFile),
+	}
+}
+
+// VerifRunEventHandler runs the real event loop on the given channel for a
+// manager returned by one of the constructors above. It blocks like
+// startEventHandler does.
+func VerifRunEventHandler(ctx context.Context, eventCh watcherx.EventChannel, m namespace.Manager,
+	done <-chan int, initialEventsProcessed chan<- struct{}, log *logrusx.Logger) {
+	startEventHandler(ctx, eventCh, m.(eventHandler), done, initialEventsProcessed, log)
+}
+
+// VerifSetNamespaceManager installs m as the namespace manager served by k.
+func (k *Config) VerifSetNamespaceManager(m namespace.Manager) {
+	k.nmLock.Lock()
+	defer k.nmLock.Unlock()
+	if k.cancelNamespaceManager != nil {
+		k.cancelNamespaceManager()
+	}
+	k.nm, k.cancelNamespaceManager = m, func() {}
+}
+
+// VerifLogger exposes the logger of the config (the watchers log through it).
+func (k *Config) VerifLogger() *logrusx.Logger { return k.l }
